@@ -1,4 +1,4 @@
-"""generator of M-Core-3 functions (descriptors: lean/LlirModel/Drv/Core3Ops.lean): parameters, named / numbered blocks, instructions of the 73 rows
+"""generator of M-Core-3 functions (descriptors: lean/LlirModel/Drv/Core3Ops.lean): parameters, named / numbered blocks, instructions of the 74 rows
 over locals (also forward references) and Core2 constants, LLVM numbering of the unnamed values; plus text-level mutants for the parser stream."""
 import re
 from . import gens
@@ -138,10 +138,15 @@ def gen_func(rng, max_blocks=4):
                 insts.append({"row": 69, "ty": rng.choice(VEC_TYS), "m": rng.choice([1, 2, 4, 8]), "res": fresh_ident(), "has": True})
             elif k < 0.94:
                 insts.append({"row": 70, "ty": rng.choice(INT_TYS + PTR_TYS + FLOAT_TYS + ["a4(i8)", "s(i32,i8)"]), "res": fresh_ident(), "has": True})
-            else:
+            elif k < 0.97:
                 t = rng.choice(AGG_TYS)
                 path, et = agg_path(rng, t)
                 insts.append({"row": rng.choice([71, 72]), "ty": t, "path": path, "ety": et, "res": fresh_ident(), "has": True})
+            else:
+                # getelementptr: element type, base pointer (any address space), a first index and a path through arrays / struct fields
+                e = rng.choice(AGG_TYS + ["i32", "a4(a2(i16))"])
+                path, et = agg_path(rng, e) if not e.startswith("i") and rng.random() < 0.8 else ([], e)
+                insts.append({"row": 73, "ty": e, "as": rng.choice([0, 0, 1, 3]), "path": path, "ety": et, "res": fresh_ident(), "has": True})
         rng.shuffle(insts)
         blocks.append({"label": fresh_ident(), "insts": insts})
     # result types
@@ -163,6 +168,7 @@ def gen_func(rng, max_blocks=4):
         if r == 70: return "p0(%s)" % t
         if r == 71: return i["ety"]
         if r == 72: return t
+        if r == 73: return "p%d(%s)" % (i["as"], i["ety"])
         return None
     # LLVM numbering of the unnamed values
     n = 0
@@ -179,6 +185,7 @@ def gen_func(rng, max_blocks=4):
         pdesc.append("%s~%s" % (t, ident))
         avail.append((ident, t))
     labels = []
+    lazy = set()          # results of getelementptr: their type is computed from their operands (never operands of another getelementptr here)
     for b in blocks:
         b["ident"] = ident_of(b["label"])
         labels.append(b["ident"])
@@ -186,10 +193,12 @@ def gen_func(rng, max_blocks=4):
             if i["has"]:
                 i["ident"] = ident_of(i["res"])
                 avail.append((i["ident"], res_ty(i)))
+                if i["row"] == 73:
+                    lazy.add(i["ident"])
             else:
                 i["ident"] = "_"
-    def operand(t):
-        c = [a for a, ty in avail if ty == t]
+    def operand(t, nolazy=False):
+        c = [a for a, ty in avail if ty == t and not (nolazy and a in lazy)]
         if c and rng.random() < 0.6:
             return "%" + rng.choice(c)
         return "#" + const_for(rng, t)
@@ -223,6 +232,32 @@ def gen_func(rng, max_blocks=4):
                                                   "V(%s)" % ",".join("i32=i%d" % rng.randrange(2 * vec_parts(t)[1]) for _ in range(i["m"])))
             elif r == 70:
                 args = "T%s!A%s" % (t, rng.choice(ALIGNS))
+            elif r == 73:
+                # struct fields are stepped by CONSTANT i32 indices; array indices may be locals of any integer type
+                def index(k, depth_ty):
+                    if depth_ty.startswith(("s(", "P(")):
+                        return "i32=#i%d" % k
+                    it = rng.choice(["i64", "i32", "i8"])
+                    o = operand(it, nolazy=True)
+                    return "%s=%s" % (it, o if o.startswith("%") else "#i%d" % k)
+                bt = "p%d(%s)" % (i["as"], t)
+                ixs, cur = [], t
+                first_t = rng.choice(["i64", "i32"])
+                ixs.append("%s=%s" % (first_t, operand(first_t, nolazy=True)))
+                for k in i["path"]:
+                    ixs.append(index(k, cur))
+                    m2 = re.fullmatch(r"a(\d+)\((.*)\)", cur)
+                    if m2:
+                        cur = m2.group(2)
+                    else:
+                        fields, depth, cc = [], 0, ""
+                        for ch in cur[2:-1]:
+                            if ch == "," and depth == 0:
+                                fields.append(cc); cc = ""
+                            else:
+                                depth += ch == "("; depth -= ch == ")"; cc += ch
+                        fields.append(cc); cur = fields[k]
+                args = "T%s!P%s=%s!G%s" % (t, bt, operand(bt, nolazy=True), "&".join(ixs))
             elif r == 71:
                 args = "P%s=%s!K%s" % (t, operand(t), ",".join(map(str, i["path"])))
             elif r == 72:
